@@ -18,6 +18,9 @@ type c07idle struct {
 // has failed, the continuous-check thread must not sit idle (no run in progress, no storage write pending) for a
 // whole Delay: its ticker fires Delay after the previous run ended, so a new run must have begun by then.
 func (monC07) AtState(x *Exec) {
+	if _, rec := recoveryMode(x); rec {
+		return // a restarted process is judged at the end (monC07Crash)
+	}
 	w := x.W
 	gates := w.Parked()
 	now := w.nowSec()
@@ -113,6 +116,10 @@ func scopeEndIdx(x *Exec, h *Hist, scope string) int {
 }
 
 func (monC07) AtEnd(x *Exec) {
+	if _, rec := recoveryMode(x); rec {
+		monC07Crash(x)
+		return
+	}
 	h := NewHist(x, 0)
 	n := len(h.Events)
 	if x.Outcome == "hang" {
@@ -216,6 +223,73 @@ func (monC07) AtEnd(x *Exec) {
 				if entered && !bypassed && h.groupFailedEver(x, scope+"/Def", n) && st.Status != workflow.Failed {
 					x.Report(&Violation{Property: "C07", Rule: "deferred-failure-lost", Signature: "def-lost",
 						Msg: fmt.Sprintf("a deferred check of %s failed but it is stored %s", scope, st.Status)})
+				}
+			}
+		}
+	}
+}
+
+// monC07Crash: the statement across a crash. For a plan that the restarted process resumed: the deferred checks of every
+// entered, not bypassed scope are terminal at the end, were not run again when they had durably passed, and are run at
+// most once by the new process; a continuous check that was durably Failed at the crash still fails its scope.
+func monC07Crash(x *Exec) {
+	cs, _ := recoveryMode(x)
+	if x.Outcome != "done" {
+		return // hangs of a recovery are C10's findings
+	}
+	h := NewHist(x, x.W.Gen)
+	for pi := range x.Sc.Plans {
+		planPath := fmt.Sprintf("P%d", pi)
+		cv := crashView(x, pi)
+		if cv == nil || cv.Objs[planPath] == nil || cv.Objs[planPath].Status != workflow.Running {
+			continue
+		}
+		p, err := x.ReadPlan(pi)
+		if err != nil {
+			continue
+		}
+		v := View(p)
+		rep := func(rule, sig, format string, a ...any) {
+			x.Report(&Violation{Property: "C07", Rule: rule, Signature: sig, Msg: fmt.Sprintf("after a crash at %d durable writes and recovery: ", cs.K) + fmt.Sprintf(format, a...)})
+		}
+		planBypassed := false
+		if pby := v.Objs[planPath+"/By"]; pby != nil && pby.Status == workflow.Completed {
+			planBypassed = true
+		}
+		for _, scope := range x.scopes() {
+			so := x.W.Objs[scope]
+			if so == nil || so.Plan != pi {
+				continue
+			}
+			st := v.Objs[scope]
+			if st == nil || st.Status == workflow.NotStarted || planBypassed {
+				continue
+			}
+			by, _, cont, _, def := x.scopeChecks(scope)
+			if by != nil {
+				if bo := v.Objs[scope+"/By"]; bo != nil && bo.Status == workflow.Completed {
+					continue
+				}
+			}
+			if def != nil {
+				d := v.Objs[scope+"/Def"]
+				if d != nil && !terminal(d.Status) {
+					rep("deferred-check-not-run", "def-across-crash", "%s was entered (stored %s) but its deferred checks are stored %s", scope, st.Status, d.Status)
+				}
+				for ai := range def.Actions {
+					ap := fmt.Sprintf("%s/Def/A%d", scope, ai)
+					n := len(h.Calls[ap])
+					if n > 1 {
+						rep("deferred-check-run-twice", "def-across-crash", "%s was invoked %d times by the restarted process", ap, n)
+					}
+					if cd := cv.Objs[scope+"/Def"]; cd != nil && cd.Status == workflow.Completed && n > 0 {
+						rep("deferred-check-run-again", "def-across-crash", "%s was invoked again although the deferred checks of %s had durably passed before the crash", ap, scope)
+					}
+				}
+			}
+			if cont != nil {
+				if cc := cv.Objs[scope+"/Cont"]; cc != nil && cc.Status == workflow.Failed && st.Status != workflow.Failed {
+					rep("contcheck-failure-lost", "cont-across-crash", "the continuous checks of %s were durably Failed at the crash, yet %s is stored %s", scope, scope, st.Status)
 				}
 			}
 		}
@@ -345,7 +419,7 @@ func init() {
 		ID:    "C07",
 		Level: "model_checking",
 		Rule: "family F-cont (continuous check failing at its k-th run, k<=3(4), at plan/block/both levels, 1-2(3) sequences x 1-2 actions, with/without pre-checks; TICK is an explorer action so every position of the failing run relative to sequence boundaries is reached; " +
-			"plus passing continuous checks with every other failure route and deferred checks present), F-chk and sharp scenarios; every order of visible operations and ticks within the deviation bound and tick horizon; " +
+			"plus passing continuous checks with every other failure route and deferred checks present), F-chk, sharp scenarios and the crash layer (every durable state of the crash scenarios with deferred or continuous checks restarted: deferred checks of entered scopes terminal, not re-run once durably passed, a durably failed continuous check still fails its scope); every order of visible operations and ticks within the deviation bound and tick horizon; " +
 			"distinct_nontrivial = distinct states in which two or more logical threads were enabled",
 		Assumptions: []string{"a free worker-pool runner always exists (64 runners)", "I/O granularity", "tick horizon 6 per execution; no plugin call outlasts its (1 h) timeout",
 			"a failing continuous-check run that returns only after the scope is over is C04's concern, not counted here"},
@@ -367,6 +441,15 @@ func init() {
 			for _, sc := range FamilyChk(tier) {
 				items = append(items, explore("C07", sc, b, true))
 			}
+			// across a crash: every durable state of the crash scenarios with deferred or continuous checks is restarted
+			var crash []*Scenario
+			for _, sc := range FamilyCrash(tier) {
+				n := sc.Name
+				if strings.Contains(n, "-def") || strings.Contains(n, "-cont-") || strings.Contains(n, "cont-fails") || strings.Contains(n, "cont-rerun") || n == "crash-all-groups" || n == "crash-bdef-fails" {
+					crash = append(crash, sc)
+				}
+			}
+			items = append(items, crashItems("C07", tier, crash)...)
 			for _, sc := range FamilySharp(tier) {
 				items = append(items, explore("C07", sc, b, true))
 			}
